@@ -251,6 +251,35 @@ def new_constants(tree, pin):
                     out.pop(name, None)
                 if isinstance(n, ast.Subscript) and isinstance(n.value, ast.Name) and n.value.id == name and not isinstance(n.ctx, ast.Load):
                     out.pop(name, None)
+    # ... and it must not escape: a use as a plain value (bound to another name, passed on, returned, used as a default) can end in a
+    # mutation through the alias, which the substitution of a fresh display per use would hide
+    mutable = [name for name in out if isinstance(out[name].value, (ast.List, ast.Dict, ast.Set))]
+    if mutable:
+        parent = {}
+        for n in ast.walk(tree):
+            for ch in ast.iter_child_nodes(n):
+                parent[id(ch)] = n
+        SAFE_CALLS = ('len', 'dict', 'list', 'tuple', 'set', 'sorted', 'frozenset', 'enumerate', 'zip', 'sum', 'min', 'max', 'any', 'all', 'OrderedDict')
+        for n in ast.walk(tree):
+            if isinstance(n, ast.Name) and n.id in mutable and isinstance(n.ctx, ast.Load) and n.id in out:
+                par = parent.get(id(n))
+                ok = False
+                if isinstance(par, ast.Attribute):
+                    ok = True      # method calls were vetted above
+                elif isinstance(par, ast.Subscript) and par.value is n:
+                    ok = True
+                elif isinstance(par, (ast.For, ast.comprehension)) and par.iter is n:
+                    ok = True
+                elif isinstance(par, ast.Compare) and n in par.comparators and all(isinstance(o, (ast.In, ast.NotIn)) for o in par.ops):
+                    ok = True
+                elif isinstance(par, ast.Call) and isinstance(par.func, ast.Name) and par.func.id in SAFE_CALLS and n in par.args:
+                    ok = True
+                elif isinstance(par, ast.BinOp) and isinstance(par.op, ast.Add):
+                    ok = True      # concatenation builds a new object
+                elif isinstance(par, ast.Starred):
+                    ok = True
+                if not ok:
+                    out.pop(n.id, None)
     return out
 
 
